@@ -51,8 +51,9 @@ INVS = ['KeyIsCeiling', 'CertIsCeiling', 'EmptyCertGrantsNothing',
         'NoCertNoCertRestriction', 'Unrestricted', 'RejectedGetsNothing',
         'Monotone', 'RestrictThenPermit', 'ForcedCommandWins',
         'PermitOpenEnforced', 'FromEnforced', 'CertConditionsEnforced',
-        'PlainKeyNotViaCALine']
-ALL = '{"perm", "seq", "cmd", "open", "match", "mix"}'
+        'PlainKeyNotViaCALine', 'TouchEnforced', 'VerifyEnforced',
+        'SkSignatureBound', 'SkWordsOnlyRestrict']
+ALL = '{"perm", "seq", "cmd", "open", "match", "mix", "sk"}'
 WORKERS = 4
 
 # the one place where asyncssh is known not to follow sshd(8): see
@@ -61,10 +62,18 @@ RESTRICT_FINDING = {'module': 'Restrict',
                     'finding': 'authorized_keys-restrict-keyword-ignored'}
 
 
+# sshd(8) verify-required (signature must assert FIDO user verification) is
+# parsed as an unknown flag and ignored:
+# fixes/C05r_authorized_keys_verify_required.patch
+VERIFY_FINDING = {'module': 'Restrict',
+                  'finding': 'authorized_keys-verify-required-ignored'}
+
+
 def write_cfg(name, consts, invariants, module='Restrict'):
     d = dict(Tier='"quick"', Sections=ALL, RestrictRule='TRUE',
              EmptyCertIsNoCert='FALSE', KeyCommandFirst='FALSE',
-             EitherGrants='FALSE')
+             EitherGrants='FALSE', VerifyRule='TRUE',
+             EitherWaivesTouch='FALSE', CallbackWaivesTouch='FALSE')
     if module == 'RestrictSeq':
         d.update(Sections='{}', Carry='"reset"', SeqTier='"quick"')
     d.update(consts)
@@ -114,6 +123,10 @@ def sensitivity(quick):
          'ForcedCommandWins'),
         ('C05r_sens3', dict(RestrictRule='FALSE', Sections='{"seq"}'),
          'RestrictThenPermit'),
+        ('C05r_sens6', dict(EitherWaivesTouch='TRUE', Sections='{"sk"}'),
+         'TouchEnforced'),
+        ('C05r_sens7', dict(VerifyRule='FALSE', Sections='{"sk"}'),
+         'VerifyEnforced'),
     ]
     if not quick:
         runs += [
@@ -121,6 +134,8 @@ def sensitivity(quick):
              'CertIsCeiling'),
             ('C05r_sens5', dict(RestrictRule='FALSE', Sections='{"seq"}'),
              'KeyIsCeiling'),
+            ('C05r_sens8', dict(CallbackWaivesTouch='TRUE', Sections='{"sk"}'),
+             'TouchEnforced'),
         ]
     return runs
 
@@ -271,6 +286,12 @@ def judge(ctx, R, cred, verdict, n):
     if obs['accepted'] != obs['server_accepted']:
         ctx.divergence(f'{desc}: client admitted={obs["accepted"]} but '
                        f'auth_completed={obs["server_accepted"]}')
+    if obs['accepted'] and not verdict['acc'] and verdict['accCoded']:
+        ctx.violation(VERIFY_FINDING,
+                      f'authorized_keys "verify-required" is not enforced: '
+                      f'signature without the user-verification bit '
+                      f'admitted: {desc}', replay=replay)
+        return
     if obs['accepted'] and not verdict['acc']:
         ctx.violation(dict(base, clause='AcceptanceCondition',
                            why=verdict['why']),
